@@ -14,6 +14,10 @@ Emitted constants (all prefixed uuid_ to stay clear of other properties' tables)
         shape 0 no reference | 1 group action | 2 enter-flow action | 3 router whose cases are group tests;
         records = a truthy obj_id is handed to record_group_uuid / record_flow_uuid of the FlowParser's container;
         carries = the obj_id is put on the Group / FlowReference object the row creates
+  uuid_case_operand_free : bool   the record/assign hooks of router cases behave the same whatever the operand / wait of
+        the router (group split, wait for response, field / result / expression split, enter-flow router)
+  uuid_edge_group_test : str   the router test type that an edge with condition_type=has_group becomes, whatever the type of
+        the row it leaves (wait_for_response, split_by_value, action rows, no_op, split_by_group); "" if that is not uniform
   uuid_block_shared : bool   does a template pulled in with insert_as_block record into the container of the
         flow that inserts it (true) or into a container of its own that is thrown away (false)
 """
@@ -58,6 +62,10 @@ def _classify(groups, flows, what):
     if flows:
         return 2
     return 0
+
+
+CASE_PROBE_OPERANDS = [("@contact.groups", None), ("@input.text", 0), ("@input.text", 300), ("@fields.probe", None),
+                       ("@results.probe", None), ("@child.run.status", None), ("@(urn_parts(contact.urn).scheme)", None)]
 
 
 def tables_uuid(out, notes):
@@ -114,6 +122,33 @@ def tables_uuid(out, notes):
     # router cases: which test types are group references, and where uuid / name sit
     rec_types, asg_types = [], []
     idx = set()
+    # The model's case hooks (Uuid/Container.v case_refs / assign_case) look at the test type only, never at the
+    # operand of the router: a has_group test is legal on any switch router (wait_for_response, split_by_value, a
+    # no_op decision, the router of an enter-flow node).  Probed under several operands; the tables are those of the
+    # group split, uuid_case_operand_free says whether every other operand gives the same (part of C06_tables_ok).
+    per_operand = {}
+    for operand, wait in CASE_PROBE_OPERANDS[1:]:
+        rt, at = [], []
+        for ty in sorted(RouterCase.TEST_VALIDATIONS):
+            if ty in RouterCase.NO_ARGS_TESTS:
+                continue
+            try:
+                router = SwitchRouter(operand, wait_timeout=wait)
+                with contextlib.redirect_stdout(io.StringIO()):
+                    case = RouterCase(ty, ["ARG0", "ARG1"], "cat-uuid")
+                router.cases.append(case)
+                spy = _SpyDict()
+                router.record_global_uuids(spy)
+                if spy.rec_groups or spy.rec_flows:
+                    rt.append((ty, tuple(spy.rec_groups), tuple(spy.rec_flows)))
+                spy = _SpyDict()
+                router.assign_global_uuids(spy)
+                if spy.asked_groups or spy.asked_flows:
+                    at.append((ty, tuple(spy.asked_groups), tuple(spy.asked_flows), tuple(case.arguments)))
+            except Exception as e:
+                rt.append((ty, "raised", type(e).__name__))
+        per_operand[f"{operand} wait={wait}"] = (rt, at)
+    reference = ([], [])
     for ty in sorted(RouterCase.TEST_VALIDATIONS):
         if ty in RouterCase.NO_ARGS_TESTS:
             continue
@@ -136,6 +171,7 @@ def tables_uuid(out, notes):
             else:
                 raise Refuse(f"router record hook on a {ty!r} case records {spy.rec_groups!r}")
             rec_types.append(ty)
+            reference[0].append((ty, tuple(spy.rec_groups), ()))
         spy = _SpyDict()
         try:
             router.assign_global_uuids(spy)
@@ -151,6 +187,12 @@ def tables_uuid(out, notes):
             else:
                 raise Refuse(f"router assign hook on a {ty!r} case: asked {spy.asked_groups!r}, arguments now {case.arguments!r}")
             asg_types.append(ty)
+            reference[1].append((ty, tuple(spy.asked_groups), (), tuple(case.arguments)))
+    operand_free = all(v == reference for v in per_operand.values())
+    if not operand_free:
+        notes.append("uuid_case_operand_free = false: the record/assign hooks of router cases depend on the operand: "
+                     + "; ".join(f"{op}: {v!r}" for op, v in per_operand.items() if v != reference)[:600])
+    out.append(f"Definition uuid_case_operand_free : bool := {'true' if operand_free else 'false'}.")
     if len(idx) > 1:
         raise Refuse(f"record and assign hooks of router cases disagree on argument positions: {sorted(idx)!r}")
     ui, ni = next(iter(idx)) if idx else (0, 1)
@@ -239,7 +281,45 @@ def _probe_row(ty, obj_id):
     return spy.rec, occ
 
 
+EDGE_PROBE_ROWS = [("wait_for_response", "", ""), ("split_by_value", "@fields.probe", ""), ("send_message", "hello", ""),
+                   ("send_message", "hello", "@fields.probe"), ("add_to_group", "PROBE-N2", ""), ("no_op", "", "@fields.probe"),
+                   ("split_by_group", "PROBE-G", "")]
+
+
+def _probe_edge(ty, main, var):
+    """type of the router test that an edge with condition_type=has_group, condition=PROBE-G creates when it leaves a
+    row of type ty, provided the test is written [None, "PROBE-G"] (a reference without uuid); else None"""
+    import logging
+    from rpft.parsers.creation.flowparser import FlowParser
+    headers = ["row_id", "type", "from", "condition", "condition_var", "condition_type", "message_text", "save_name"]
+    rows = [{"row_id": "1", "type": ty, "from": "start", "message_text": main, "save_name": "probe" if ty == "wait_for_response" else ""},
+            {"row_id": "2", "type": "send_message", "from": "1", "condition": "PROBE-G", "condition_var": var,
+             "condition_type": "has_group", "message_text": "x"}]
+    spy = _spy_container()
+    logging.disable(logging.CRITICAL)
+    try:
+        doc = FlowParser(spy, "probe", _dataset(headers, rows)).parse(add_to_container=False).render()
+    finally:
+        logging.disable(logging.NOTSET)
+    found = [k for n in doc["nodes"] for k in (n.get("router") or {}).get("cases", []) if "PROBE-G" in (k.get("arguments") or [])]
+    if len(found) != 1 or found[0]["arguments"] != [None, "PROBE-G"] or any(r[1] == "PROBE-G" for r in spy.rec):
+        return None
+    return found[0]["type"]
+
+
 def tables_uuid_sheet(out, notes):
+    # a has_group condition may hang off ANY row: which router test it becomes
+    edge_types = set()
+    for ty, main, var in EDGE_PROBE_ROWS:
+        try:
+            edge_types.add(_probe_edge(ty, main, var))
+        except BaseException as e:
+            notes.append(f"uuid_edge_group_test: a has_group edge leaving a {ty} row does not compile: {type(e).__name__}: {e}"[:300])
+            edge_types.add(None)
+    edge_test = next(iter(edge_types)) if len(edge_types) == 1 and None not in edge_types else ""
+    # "" (no such test type) makes C06_sheet_tables_ok false: the model (Uuid/Sheet.v node_of) gives every row the
+    # group tests of the edges that leave it, with this type and no uuid
+    out.append(f"Definition uuid_edge_group_test : str := {coq_str(edge_test)}.")
     from rpft.rapidpro.models.routers import RouterCase  # noqa: F401  (import check)
     rows = []
     for ty in ROW_TYPES:
